@@ -32,6 +32,19 @@ def denseGet (rows : List α) (ix : Index) : Except Err (List α) :=
   | .indexError => .error .indexError
   | .valueError => .error .valueError
 
+/-- Positions selected by a boolean mask (`values[mask]`, NumPy): the indices of the `True` entries. -/
+def maskPosFrom : Nat → List Bool → List Nat
+  | _, [] => []
+  | o, b :: t => if b then o :: maskPosFrom (o + 1) t else maskPosFrom (o + 1) t
+
+def maskPos (mask : List Bool) : List Nat := maskPosFrom 0 mask
+
+/-- `DenseFunctionalData.__getitem__` / `BasisFunctionalData.__getitem__` with a boolean index array:
+the mask must have exactly one entry per observation (`IndexError` otherwise); the rows whose entry
+is `True` are kept, in order. -/
+def denseGetMask (rows : List α) (mask : List Bool) : Except Err (List α) :=
+  if mask.length = rows.length then .ok (pick rows (maskPos mask)) else .error .indexError
+
 /-- The labels selected by an index: `labels = list(argvals.keys())`, then
 `labels[index]` (slice), `[labels[int(o)] for o in index]` (array) or
 `[labels[index]]` (integer) — `IrregularFunctionalData.__getitem__`. -/
